@@ -481,8 +481,13 @@ def run(ctx):
                  {"case": c, "gallina": cases[i][:6000], "model_view": view,
                   "theorem_or_corr": "corr:C20:%s" % c["kind"]}, c["property_fails"])
     whole = whole_objects(ctx)
+    t4 = time.time()
+    hist = history_objects(ctx)
+    whole["objects"] += hist["objects"]
+    whole["stats"]["histories"] = hist["stats"]
+    stats["seconds_histories"] = round(time.time() - t4, 1)
     stats["seconds"] = {"proofs": round(t1 - t0, 1), "component_generation": round(t2 - t1, 1),
-                        "coq_correspondence": round(t3 - t2, 1), "whole_objects": round(time.time() - t3, 1)}
+                        "coq_correspondence": round(t3 - t2, 1), "whole_objects": round(t4 - t3, 1)}
     if not ok_proofs:
         ctx.proof_broken()
     distinct = len(set(c for c, r in zip(cases, raw) if r["nontrivial"]))
@@ -1068,6 +1073,203 @@ def gen_htn(rng, i):
         htn.task_network.add_constraint(LT(g1.start + rng.randint(1, 5), g2.end))
     htn.add_goal(GE(fuel, Fraction(1, 10)))
     return htn
+
+
+# ---------------------------------------------------------------------------------------------------- histories
+def variant_problem(env, rng, tag):
+    """One 'version of a client's model': the SAME identifiers every time (problem, types, objects, fluents,
+    actions), but a randomly different type hierarchy, object typing, fluent signatures/types and action shapes."""
+    import unified_planning as up
+    from unified_planning.model import (Problem, Fluent, Object, InstantaneousAction, DurativeAction, Variable)
+    from unified_planning.model.timing import StartTiming, EndTiming, DurationInterval
+    tm, em = env.type_manager, env.expression_manager
+    name = rng.choice(["client", "client", "other", None])
+    # hierarchy over the names A, B, T: a user type is identified by its name AND its father
+    shape = rng.randrange(5)
+    if shape == 0:
+        A = tm.UserType("A"); B = tm.UserType("B"); T = tm.UserType("T", A)
+    elif shape == 1:
+        A = tm.UserType("A"); B = tm.UserType("B"); T = tm.UserType("T", B)
+    elif shape == 2:
+        A = tm.UserType("A"); B = tm.UserType("B", A); T = tm.UserType("T", B)
+    elif shape == 3:
+        B = tm.UserType("B"); A = tm.UserType("A", B); T = tm.UserType("T")
+    else:
+        A = tm.UserType("A"); B = tm.UserType("B"); T = tm.UserType("T")
+    p = Problem(name, env)
+    otypes = [rng.choice([A, B, T]) for _ in range(3)]
+    objs = [Object("o%d" % i, t, env) for i, t in enumerate(otypes)]
+    p.add_objects(objs)
+    ftypes = [tm.BoolType(), tm.IntType(0, None), tm.IntType(None, 7), tm.RealType(Fraction(-7, 2), None),
+              tm.RealType(None, Fraction(10 ** 15, 7)), tm.RealType(), rng.choice([A, B, T])]
+    fls = []
+    for fname in ("f", "g"):
+        ft = rng.choice(ftypes)
+        sig = {}
+        for pn in ("x", "y")[:rng.randint(0, 2)]:
+            sig[pn] = rng.choice([A, B, T])
+        fl = Fluent(fname, ft, environment=env, **sig)
+        fls.append(fl)
+        dv = None
+        if ft.is_bool_type():
+            dv = rng.choice([None, True, False])
+        elif ft.is_int_type():
+            dv = rng.choice([None, 3])
+        elif ft.is_real_type():
+            dv = rng.choice([None, Fraction(1, 3)])
+        p.add_fluent(fl, default_initial_value=dv)
+
+    def args_for(fl, pool):
+        out = []
+        for q in fl.signature:
+            cands = [x for x in pool if x.type == q.type or (x.type.is_user_type() and q.type in x.type.ancestors)]
+            if not cands:
+                return None
+            out.append(rng.choice(cands))
+        return out
+    for an in ("act", "act2"):
+        ptypes = {pn: rng.choice([A, B, T]) for pn in ("p", "q")[:rng.randint(0, 2)]}
+        dur = rng.random() < 0.4
+        a = DurativeAction(an, _env=env, **ptypes) if dur else InstantaneousAction(an, _env=env, **ptypes)
+        if dur:
+            a.set_duration_constraint(DurationInterval(em.Int(1), em.Real(Fraction(7, 2)), rng.random() < 0.5, rng.random() < 0.5))
+        pool = [em.ParameterExp(q) for q in a.parameters] + [em.ObjectExp(o) for o in objs]
+        for fl in fls:
+            ar = args_for(fl, pool)
+            if ar is None:
+                continue
+            fe = fl(*ar)
+            try:
+                if fl.type.is_bool_type():
+                    if dur:
+                        a.add_condition(StartTiming(), em.Not(fe)); a.add_effect(EndTiming() - Fraction(1, 3), fe, True)
+                    else:
+                        a.add_precondition(em.Not(fe)); a.add_effect(fe, True)
+                elif fl.type.is_int_type() or fl.type.is_real_type():
+                    if dur:
+                        a.add_increase_effect(EndTiming(), fe, 1)
+                    else:
+                        a.add_precondition(em.LE(fe, em.Int(5))); a.add_increase_effect(fe, 1)
+                else:
+                    vals = [x for x in pool if x.type == fl.type or (x.type.is_user_type() and fl.type in x.type.ancestors)]
+                    if vals:
+                        if dur:
+                            a.add_effect(EndTiming(), fe, rng.choice(vals))
+                        else:
+                            a.add_effect(fe, rng.choice(vals))
+            except (up.exceptions.UPException, AssertionError):
+                pass
+        p.add_action(a)
+    v = Variable("v", rng.choice([A, B, T]), env)
+    for fl in fls:
+        if fl.type.is_bool_type():
+            ar = args_for(fl, [em.VariableExp(v)] + [em.ObjectExp(o) for o in objs])
+            if ar is not None:
+                try:
+                    p.add_goal(em.Exists(fl(*ar), v) if any(x.is_variable_exp() for x in ar) else fl(*ar))
+                except (up.exceptions.UPException, AssertionError):
+                    pass
+    from unified_planning.model import metrics as M
+    mk = rng.randrange(5)
+    try:
+        if mk == 0:
+            p.add_quality_metric(M.MinimizeActionCosts({a: em.Int(rng.randint(0, 4)) for a in p.actions[:rng.randint(0, 2)]},
+                                                       default=rng.choice([None, em.Real(Fraction(1, 2))]), environment=env))
+        elif mk == 1:
+            p.add_quality_metric(M.MinimizeSequentialPlanLength(env))
+        elif mk == 2 and p.goals:
+            p.add_quality_metric(M.Oversubscription({p.goals[0]: Fraction(7, 3)}, environment=env))
+        elif mk == 3:
+            nums = [fl for fl in fls if fl.arity == 0 and (fl.type.is_int_type() or fl.type.is_real_type())]
+            if nums:
+                p.add_quality_metric(M.MaximizeExpressionOnFinalState(nums[0](), environment=env))
+    except (up.exceptions.UPException, AssertionError):
+        pass
+    return p, "shape%d" % shape
+
+
+def fresh_reader_module():
+    """A private copy of proto_reader.py executed in a new namespace: the module state of a fresh process."""
+    import importlib.util
+    import unified_planning.grpc.proto_reader as real
+    spec = importlib.util.spec_from_file_location("c20_fresh_proto_reader", real.__file__)
+    mod = importlib.util.module_from_spec(spec)
+    spec.loader.exec_module(mod)
+    return mod
+
+
+def canon_msg(m):
+    c = copy_msg(m)
+    if hasattr(c, "features"):
+        feats = sorted(c.features)
+        del c.features[:]
+        c.features.extend(feats)
+    return c.SerializeToString(deterministic=True)
+
+
+def history_objects(ctx):
+    """Round-trip HISTORIES: several problems written and read in ONE process and ONE Environment, with the
+    reader/writer instances reused or fresh.  Every read is compared with the original and with the same message read
+    in a fresh process state (private copy of the reader module, fresh Environment)."""
+    import unified_planning as up
+    from unified_planning.environment import Environment
+    from unified_planning.grpc.proto_reader import ProtobufReader
+    from unified_planning.grpc.proto_writer import ProtobufWriter
+    rng = ctx.rng
+    stats = {"histories": 0, "steps": 0, "same_name_pairs_with_different_hierarchy": 0, "gen_error": 0}
+    n_hist = 10 if ctx.quick else 120
+    objects = 0
+    for h in range(n_hist):
+        env = Environment()
+        shared_w, shared_r = ProtobufWriter(), ProtobufReader()
+        reuse = h % 2 == 0
+        trace = []
+        seen_shapes = {}
+        for step in range(rng.randint(4, 7)):
+            try:
+                p, shape = variant_problem(env, rng, "%d.%d" % (h, step))
+            except (up.exceptions.UPException, AssertionError) as e:
+                stats["gen_error"] += 1
+                continue
+            if any(s != shape for s in seen_shapes.get(p.name, ())):
+                stats["same_name_pairs_with_different_hierarchy"] += 1
+            seen_shapes.setdefault(p.name, set()).add(shape)
+            w = shared_w if reuse else ProtobufWriter()
+            r = shared_r if reuse else ProtobufReader()
+            trace.append("%s name=%r %s" % ("reused" if reuse else "fresh", p.name, shape))
+            payload = {"history": list(trace), "problem": str(p)[:2500], "reader_writer": "reused" if reuse else "fresh instances"}
+            tags = ["history", "reused-instances" if reuse else "fresh-instances"]
+            try:
+                m = w.convert(p)
+            except Exception as e:
+                ctx.fail("oracle", "C20 history: the writer rejected a problem it accepts in a fresh process? %s: %s" % (type(e).__name__, str(e)[:200]),
+                         tags + ["writer"], payload, False)
+                continue
+            objects += 1
+            stats["steps"] += 1
+            try:
+                y = r.convert(copy_msg(m), env)
+            except Exception as e:
+                ctx.fail("oracle", "C20 history step %d: reading a message written from a legal problem raised %s: %s "
+                                   "(earlier reads in the same process/Environment: see payload)" % (step, type(e).__name__, str(e)[:200]),
+                         tags + ["reader-raised"], payload, True)
+                continue
+            if y != p or y.kind != p.kind:
+                ctx.fail("oracle", "C20 history step %d: reader(writer(x)) != x after earlier reads in the same process/Environment" % step,
+                         tags + ["not-equal"], dict(payload, read_back=str(y)[:2500]), True)
+                continue
+            # the same message read in a fresh process state must denote the same problem
+            try:
+                fm = fresh_reader_module()
+                z = fm.ProtobufReader().convert(copy_msg(m), Environment())
+                if canon_msg(ProtobufWriter().convert(z)) != canon_msg(ProtobufWriter().convert(y)) or canon_msg(m) != canon_msg(ProtobufWriter().convert(y)):
+                    ctx.fail("oracle", "C20 history step %d: the read differs from the read of the same message in a fresh process state" % step,
+                             tags + ["differs-from-fresh"], dict(payload, fresh=str(z)[:2500], read_back=str(y)[:2500]), True)
+            except Exception as e:
+                ctx.fail("oracle", "C20 history step %d: fresh-state read raised %s: %s" % (step, type(e).__name__, str(e)[:200]),
+                         tags + ["fresh-raised"], payload, True)
+        stats["histories"] += 1
+    return {"objects": objects, "stats": stats}
 
 
 def normalise_result(x):
